@@ -189,7 +189,10 @@ Definition is_sys (n : string) : bool := String.eqb n "sys_pages" || String.eqb 
    and recoveries happened in between); no statement may panic; no recovery may fail; row ids
    are never reused. `cands` = the databases the specification allows at this point (one,
    except after a crash inside a log append, where any row-operation prefix is allowed). *)
-Fixpoint spec_ok (lax : bool) (base cands : list db) (seen : list (string * list N)) (gmax : N)
+Inductive smode := MNormal | MLax | MStrict.
+Definition is_lax (m : smode) : bool := match m with MLax => true | _ => false end.
+
+Fixpoint spec_ok (md : smode) (base cands : list db) (seen : list (string * list N)) (gmax : N)
          (evs : list hevent) (obs : list hobs) : bool :=
   (* `base` = the databases allowed if no failing statement ever left anything behind; only
      used when `lax` (diagnosis of the recorded C14 finding): unlogged partial effects of a
@@ -201,34 +204,42 @@ Fixpoint spec_ok (lax : bool) (base cands : list db) (seen : list (string * list
       | OBok =>
           let c' := flat_map (fun d => ok_dbs (spec_exec d st)) cands in
           let b' := flat_map (fun d => ok_dbs (spec_exec d st)) base in
-          negb (Nat.eqb (List.length c') 0) && spec_ok lax b' c' seen gmax er orr
+          negb (Nat.eqb (List.length c') 0) && spec_ok md b' c' seen gmax er orr
       | OBerr _ =>
           (* an erroring statement changes nothing; `lax` also allows a row-operation prefix *)
-          spec_ok lax base (if lax then flat_map (fun d => stmt_prefixes d st) cands else cands) seen gmax er orr
+          (* MStrict (C08): an error is only allowed when the specification rejects the statement too *)
+          (match md with
+           | MStrict => forallb (fun d => match spec_exec d st with SpecErr _ => true | SpecOk _ => false end) cands
+           | _ => true
+           end) &&
+          spec_ok md base (if is_lax md then flat_map (fun d => stmt_prefixes d st) cands else cands) seen gmax er orr
       | OBpanic => false
       end
-  | HEv EvFlush :: er, HOut OBok :: orr => spec_ok lax base cands seen gmax er orr
+  | HEv EvFlush :: er, HOut OBok :: orr => spec_ok md base cands seen gmax er orr
   | HEv EvCrash :: er, HOut OBok :: orr =>
-      spec_ok lax base (if lax then cands ++ base else cands) seen gmax er orr
+      spec_ok md base (if is_lax md then cands ++ base else cands) seen gmax er orr
   | HEv (EvTornFlush _) :: er, HOut OBok :: orr =>
-      spec_ok lax base (if lax then cands ++ base else cands) seen gmax er orr
+      spec_ok md base (if is_lax md then cands ++ base else cands) seen gmax er orr
   | HEv (EvCrashInLog st _) :: er, HOut OBok :: orr =>
       (* some prefix of the statement's row operations, in order *)
       let c' := flat_map (fun d => stmt_prefixes d st) cands in
-      spec_ok lax c' c' seen gmax er orr
+      spec_ok md c' c' seen gmax er orr
   | HReadTables _ :: er, HTables l :: orr =>
       let user := filter (fun nt => negb (is_sys (fst nt))) l in
       let c' := filter (fun d => forallb (table_matches_spec d) l) cands in
       negb (Nat.eqb (List.length c') 0) &&
       forallb (fresh_ok seen gmax) user &&
-      spec_ok lax base c' (fold_left (fun acc nt => set_seen (fst nt) (ids_of (snd nt)) acc) user seen)
+      spec_ok md base c' (fold_left (fun acc nt => set_seen (fst nt) (ids_of (snd nt)) acc) user seen)
               (fold_left N.max (flat_map (fun nt => ids_of (snd nt)) user) gmax) er orr
-  | HDumpPages :: er, _ :: orr => spec_ok lax base cands seen gmax er orr
+  | HDumpPages :: er, _ :: orr => spec_ok md base cands seen gmax er orr
   | _, _ => false
   end.
 
-Definition spec_accepts (c : hcase) : bool := spec_ok false [[]] [[]] [] 0 (fst c) (snd c).
+Definition spec_accepts (c : hcase) : bool := spec_ok MNormal [[]] [[]] [] 0 (fst c) (snd c).
 
 (* diagnosis of the recorded C14 finding: would the history be accepted if a failing statement
    were allowed to leave a row-operation prefix behind? *)
-Definition spec_accepts_prefix_on_error (c : hcase) : bool := spec_ok true [[]] [[]] [] 0 (fst c) (snd c).
+Definition spec_accepts_prefix_on_error (c : hcase) : bool := spec_ok MLax [[]] [[]] [] 0 (fst c) (snd c).
+
+(* C08: additionally, every refusal must be one the specification demands *)
+Definition spec_accepts_strict (c : hcase) : bool := spec_ok MStrict [[]] [[]] [] 0 (fst c) (snd c).
